@@ -297,8 +297,16 @@ def _handler_first(fn):
                     if isinstance(s, ast.Call) and isinstance(s.func, ast.Name) and s.func.id == "type" and len(s.args) == 1 \
                             and isinstance(s.args[0], ast.Name) and s.args[0].id == "obj":
                         ok = True
-            returns_verbatim = any(isinstance(n, ast.Return) and isinstance(n.value, ast.Call) and isinstance(n.value.func, ast.Name)
-                                   and n.value.func.id == "serializer" for n in ast.walk(st))
+            # the local bound to the looked-up handler (its name is not significant)
+            local = None
+            for n in ast.walk(st):
+                if isinstance(n, ast.Assign) and len(n.targets) == 1 and isinstance(n.targets[0], ast.Name) \
+                        and isinstance(n.value, ast.Subscript) and isinstance(n.value.value, ast.Attribute) \
+                        and n.value.value.attr == "serialize_handlers":
+                    local = n.targets[0].id
+            returns_verbatim = local is not None and any(
+                isinstance(n, ast.Return) and isinstance(n.value, ast.Call) and isinstance(n.value.func, ast.Name)
+                and n.value.func.id == local for n in ast.walk(st))
             if ok and returns_verbatim:
                 first_try = idx
         if first_isinstance is None and any(isinstance(n, ast.Call) and isinstance(n.func, ast.Name) and n.func.id == "isinstance"
